@@ -2,6 +2,7 @@ package main
 
 import (
 	"bytes"
+	"encoding/json"
 	"go/types"
 	"context"
 	"fmt"
@@ -25,6 +26,17 @@ var solvers = []solverDef{
 	{"cvc5", func(f string, t int) []string {
 		return []string{"cvc5", "--incremental", fmt.Sprintf("--tlimit=%d", t*1000), f}
 	}, "(set-option :produce-models true)\n(set-logic ALL)\n"},
+}
+
+// solverHints: which solver discharged an obligation last time (a performance hint only: answers are never cached).
+var solverHints = map[string]string{}
+
+func loadSolverHints(path string) {
+	data, err := os.ReadFile(path)
+	if err != nil {
+		return
+	}
+	json.Unmarshal(data, &solverHints)
 }
 
 func (o *Obligation) query(withModel, noBG bool) string {
@@ -117,8 +129,16 @@ func discharge(o *Obligation, dir string, timeoutS int, idx int) {
 	if o.exceptObl != nil && timeoutS > 3 {
 		timeoutS = 3 // a recorded known finding is expected to fail here; the decision is made on its except-query
 	}
-	res, text, secs := runSolver(solvers[0], q, dir, tag, timeoutS)
-	o.Result, o.Solver, o.Secs, o.Raw = res, solvers[0].name, secs, text
+	first := solvers[0]
+	if h, ok := solverHints[o.Name]; ok && !o.isCover {
+		for _, sd := range solvers {
+			if sd.name == h {
+				first = sd
+			}
+		}
+	}
+	res, text, secs := runSolver(first, q, dir, tag, timeoutS)
+	o.Result, o.Solver, o.Secs, o.Raw = res, first.name, secs, text
 	if res == want || res == bad || o.isCover || o.exceptObl != nil {
 		if res == "sat" {
 			o.Model = text
@@ -142,7 +162,10 @@ func discharge(o *Obligation, dir string, timeoutS int, idx int) {
 		secs           float64
 	}
 	ch := make(chan ans, 2)
-	for _, sd := range solvers[1:] {
+	for _, sd := range solvers {
+		if sd.name == first.name {
+			continue
+		}
 		go func(sd solverDef) {
 			r, t, s := runSolver(sd, q, dir, tag, timeoutS)
 			ch <- ans{r, t, sd.name, s}
